@@ -572,7 +572,7 @@ def check_C09(ctx, rep):
         for (b, f, args, t) in calls(fa):
             for a in args:
                 if a[0] == 'ref' and is_field(a[1], 'signal_pending', 'Framework'):
-                    ok = name == 'trigger_events' and callee_str(f).endswith('Option::<T>::take')
+                    ok = name in ('trigger_events', 'transition') and callee_str(f).endswith('Option::<T>::take')
                     if callee_str(f).endswith('fmt') or fn.derived:
                         continue
                     rep.ob('C09.R1', fn, 'borrow:signal_pending:' + callee_str(f).split('::')[-1], ok, '%s in %s' % (callee_str(f), name))
@@ -617,44 +617,72 @@ def check_C09(ctx, rep):
         for (b, k, v) in ret_defs(fa):
             if b in region:
                 rep.ob('C09.R1', tr, 'arm-returns-Unchanged', v[0] == 'agg' and v[2] == 'Unchanged', 'returns %s' % shape(v))
-    # R2
-    def pending_inner(e):
-        """e designates (self.signal_pending as Some).0"""
-        e = unload(e)
-        return e[0] == 'fld' and e[1][0] == 'var' and e[1][2] == 'Some' and is_field(e[1][1], 'signal_pending', 'Framework')
-
-    def pending_payload(e):
-        e = unload(e)
-        return e[0] == 'fld' and e[1][0] == 'var' and e[1][2] == 'AllExcept' and pending_inner(e[1][1])
+    # R2 (the constructions may live in transition itself or in one private helper called from its signal arm)
+    def is_pending_tr(x):
+        x = unload(x)
+        return is_field(x, 'signal_pending', 'Framework') or (is_call(x, 'Option::<T>::take') and contains(x, lambda y: isinstance(y, tuple) and y and y[0] == 'fld' and y[3] == 'signal_pending'))
+    builders = [g for g in prog.crate_fns(FW) if g.has_body and not g.derived and aggregates(an.get(g), 'framework::SignalTarget')]
     n_all = n_exc = 0
-    for (site, var, flds, ln) in aggregates(fa, 'framework::SignalTarget'):
-        st = pfh.at(site[0], site[1])
-        if var == 'All':
-            n_all += 1
+    for g in builders:
+        ga = an.get(g)
+        if g is tr:
+            is_pending, mexpr = is_pending_tr, ('param', 2)
+        else:
+            # helper: exactly one call site, inside the signal arm of transition, fed with the pending value and the machine index
+            sites_g = [(b, a) for (b, f, a, t) in calls(fa) if callee_key(f) == g.key]
+            other_callers = [h.short() for h in prog.crate_fns(FW) if h.has_body and h is not tr and h is not g and any(callee_key(f) == g.key for (b, f, a, t) in calls(an.get(h)))]
+            okh = len(sites_g) == 1 and not other_callers and any(fa.cfg.dominates(h0, sites_g[0][0]) for h0 in arm_heads)
+            pi = mi_i = None
+            if okh:
+                for k_, a in enumerate(sites_g[0][1]):
+                    if is_pending_tr(a) or (a[0] in ('ref', 'refv') and is_pending_tr(a[1])):
+                        pi = k_ + 1
+                    if a == ('param', 2):
+                        mi_i = k_ + 1
+                okh = pi is not None and mi_i is not None
+                # its result is what gets stored
+                okh = okh and any(contains(v, lambda y: isinstance(y, tuple) and y and y[0] == 'call' and len(y) > 5 and y[5] == g.key) for (pe, v, site) in sp)
+            rep.ob('C09.R2', g, 'helper-called-from-signal-arm-with-pending-and-index', bool(okh), 'helper %s builds the signal target' % g.short())
+            if not okh:
+                continue
+            is_pending = (lambda x, pi=pi: unload(x) in (('param', pi), ('local', pi)) or (unload(x)[0] == 'deref' and unload(x)[1] == ('param', pi)))
+            mexpr = ('param', mi_i)
+        gp = an.paths(g, history=True)
 
-            def other_machine(S):
-                if any(f[0] == 'variant' and f[2] == 'All' and pending_inner(f[1]) for f in S):
-                    return True
-                if has_cmp(S, 'eq', pending_payload, lambda r: r == ('param', 2), False) or has_cmp(S, 'ne', pending_payload, lambda r: r == ('param', 2), True):
-                    return True
-                return False
-            ok, w = all_paths(st, other_machine)
-            rep.ob('C09.R2', tr, 'All-only-after-a-different-machine', ok, '' if ok else 'witness: ' + show_facts(w))
-        elif var == 'AllExcept':
-            n_exc += 1
-            rep.ob('C09.R2', tr, 'AllExcept-carries-own-index', flds.get('0') == ('param', 2), 'AllExcept(%s)' % show(flds.get('0')))
+        def pending_inner(e, is_pending=is_pending):
+            e = unload(e)
+            return e[0] == 'fld' and e[1][0] == 'var' and e[1][2] == 'Some' and is_pending(e[1][1])
 
-            def lone(S):
-                if any(f[0] == 'variant' and f[2] == 'None' and is_field(f[1], 'signal_pending', 'Framework') for f in S):
-                    return True
-                if has_cmp(S, 'eq', pending_payload, lambda r: r == ('param', 2), True):
-                    return True
-                return False
-            ok, w = all_paths(st, lone)
-            rep.ob('C09.R2', tr, 'AllExcept-only-for-lone-signaller', ok, '' if ok else 'witness: ' + show_facts(w))
+        def pending_payload(e, pending_inner=pending_inner):
+            e = unload(e)
+            return e[0] == 'fld' and e[1][0] == 'var' and e[1][2] == 'AllExcept' and pending_inner(e[1][1])
+        for (site, var, flds, ln) in aggregates(ga, 'framework::SignalTarget'):
+            st = gp.at(site[0], site[1])
+            if var == 'All':
+                n_all += 1
+
+                def other_machine(S):
+                    if any(f[0] == 'variant' and f[2] == 'All' and pending_inner(f[1]) for f in S):
+                        return True
+                    if has_cmp(S, 'eq', pending_payload, lambda r: r == mexpr, False) or has_cmp(S, 'ne', pending_payload, lambda r: r == mexpr, True):
+                        return True
+                    return False
+                ok, w = all_paths(st, other_machine)
+                rep.ob('C09.R2', g, 'All-only-after-a-different-machine', ok, '' if ok else 'witness: ' + show_facts(w))
+            elif var == 'AllExcept':
+                n_exc += 1
+                rep.ob('C09.R2', g, 'AllExcept-carries-own-index', flds.get('0') == mexpr, 'AllExcept(%s)' % show(flds.get('0')))
+
+                def lone(S):
+                    if any(f[0] == 'variant' and f[2] == 'None' and is_pending(f[1]) for f in S):
+                        return True
+                    if has_cmp(S, 'eq', pending_payload, lambda r: r == mexpr, True) or has_cmp(S, 'ne', pending_payload, lambda r: r == mexpr, False):
+                        return True
+                    return False
+                ok, w = all_paths(st, lone)
+                rep.ob('C09.R2', g, 'AllExcept-only-for-lone-signaller', ok, '' if ok else 'witness: ' + show_facts(w))
     rep.ob('C09.R2', tr, 'targets-constructed', n_all >= 1 and n_exc >= 1, 'All x%d, AllExcept x%d' % (n_all, n_exc))
-    others = [fn for fn in prog.crate_fns(FW) if fn.has_body and fn is not tr and not fn.derived and aggregates(an.get(fn), 'framework::SignalTarget')]
-    rep.ob('C09.R2', '<inventory>', 'SignalTarget-constructed-only-in-transition', not others, 'other constructors: %s' % [f.short() for f in others])
+    rep.ob('C09.R2', '<inventory>', 'SignalTarget-builders', 1 <= len(builders) <= 2 and (tr in builders or len(builders) == 1), '%s' % [f.short() for f in builders])
     # R3
     sites = signal_calls(prog, an)
     rep.count_exact('C09.R3', 'Signal call sites', len(sites), 2)
